@@ -280,7 +280,8 @@ func (c *c11ctx) ruleR2() {
 		return
 	}
 	blockParamMethod := "" // the interface method taking the received block
-	Instrs(core, func(in ssa.Instruction) {
+	InstrsDeep(core, 2, func(di DeepInstr) {
+		in := di.In
 		if isDynamicVoidCall(in) {
 			if _, ok := in.(*ssa.Go); ok {
 				reqGos++
